@@ -252,10 +252,15 @@ def alpha_float(draw):
 
 
 @st.composite
-def translucent(draw, fg_rgb):
-    """A translucent spelling of fg_rgb with alpha in [0,1]: returns (arg_encoded, kind, fg_exact(Fractions), alpha(Fraction))."""
+def translucent(draw, fg_rgb, css4=False):
+    """A translucent spelling of fg_rgb with alpha in [0,1]: returns (arg_encoded, kind, fg_exact(Fractions), alpha(Fraction)).
+    css4=True adds the CSS Color 4 aliases of rgba() that the library accepts: rgb(r, g, b, a) and rgb(r g b / a)."""
     r, g, b = fg_rgb
-    kind = draw(st.sampled_from(["rgba", "rgba", "hsla", "tuple4", "list4"]))
+    kind = draw(st.sampled_from(["rgba", "rgba", "hsla", "tuple4", "list4"] + (["rgb4-comma", "rgb4-slash"] if css4 else [])))
+    if kind in ("rgb4-comma", "rgb4-slash"):
+        a = draw(alpha_str())
+        txt = f"rgb({r}, {g}, {b}, {a})" if kind == "rgb4-comma" else f"rgb({r} {g} {b} / {a})"
+        return txt, kind, (F(r), F(g), F(b)), F(a)
     if kind == "rgba":
         a = draw(alpha_str())
         w = draw(_WS)
